@@ -59,6 +59,9 @@ def _keyelem(x):
         arr = x.data
         if all(isinstance(v, (bool, _np.bool_, int, _np.integer)) for v in arr.ravel()):
             return _np.asarray(arr.tolist())
+        if all(isinstance(v, (bool, _np.bool_, SymBool)) for v in arr.ravel()):
+            # boolean mask with symbolic entries: each entry becomes a branch decision
+            return _np.asarray([bool(v) for v in arr.ravel()]).reshape(arr.shape)
         raise Unsupported("indexing with a symbolic array")
     if isinstance(x, (Sc, SymBool)):
         raise Unsupported("indexing with a symbolic scalar")
@@ -391,6 +394,8 @@ def _reduce(a, axis, f, empty=None):
 
 
 def sum_(a, axis=None, **k):
+    if not has_sym(a):
+        return _np.sum(a, axis=axis)
     return _reduce(a, axis, lambda vs: _fold([_sc(v) for v in vs], lambda x, y: x + y), empty=Sc(ZERO))
 
 
@@ -405,10 +410,14 @@ def _min2(x, y):
 
 
 def max_(a, axis=None, **k):
+    if not has_sym(a):
+        return _np.max(a, axis=axis)
     return _reduce(a, axis, lambda vs: _fold([Sc.of(v) for v in vs], _max2))
 
 
 def min_(a, axis=None, **k):
+    if not has_sym(a):
+        return _np.min(a, axis=axis)
     return _reduce(a, axis, lambda vs: _fold([Sc.of(v) for v in vs], _min2))
 
 
@@ -481,6 +490,8 @@ def einsum(spec, *ops, **k):
 
 
 def asarray(x, dtype=None, **k):
+    if hasattr(x, "sym_value"):
+        x = x.sym_value()
     if isinstance(x, SA):
         return x
     if isinstance(x, Sc):
@@ -493,6 +504,8 @@ def asarray(x, dtype=None, **k):
 
 
 def array(x, dtype=None, **k):
+    if hasattr(x, "sym_value"):
+        x = x.sym_value()
     if isinstance(x, SA):
         return x.copy()
     if has_sym(x):
